@@ -195,6 +195,10 @@ func (in *Interp) eqVal(x, y Value) *sym.Term {
 	case *SymRegexp:
 		yr, _ := y.(*SymRegexp)
 		return c.BoolC(x == yr)
+	case *lazyErr:
+		// errors made by fmt.Errorf are pointers: identity
+		yl, _ := y.(*lazyErr)
+		return c.BoolC(x == yl)
 	case *ssa.Function, *Closure, *NativeFunc:
 		return c.BoolC(in.isNilValue(x) && in.isNilValue(y))
 	case nil:
